@@ -102,7 +102,9 @@ def notify_subscribers(notifier: Resource, event_time: float):
             subscriber.put_nowait(
                 ResourceEvent(resource=notifier, event_time=event_time)
             )
-        except asyncio.QueueFull:
+        except (asyncio.QueueFull, asyncio.QueueShutDown):
+            # A full queue drops the event; a shut-down queue belongs to a
+            # subscriber that was killed but is not deregistered yet.
             pass
             # TODO: I think there is a way to monitor for stalled subscribers
             # then notify a house-keeper process to deal with it.
